@@ -1,12 +1,12 @@
 #!/usr/bin/env python
-"""C15 side observation (not part of the check): `BaseModbusClient.execute` calls `self.connect()` BEFORE the manager's
-lock is taken, and `ModbusTcpClient.connect` is check-then-act (`if self.socket: return True` ... `self.socket =
+"""C15, fixed finding connect-outside-lock, on real sockets (not part of the check).  Before the repair
+`BaseModbusClient.execute` called `self.connect()` BEFORE any lock was taken, and `ModbusTcpClient.connect` is check-then-act (`if self.socket: return True` ... `self.socket =
 socket.create_connection(...)`, a blocking call during which other threads run).  A second caller whose connection
 attempt completes while the first caller is waiting for its reply replaces `client.socket` under the first caller's
 feet: the first caller keeps polling the NEW socket, its reply arrives on the old one and is lost (and the old socket
 is leaked).  Real ModbusTcpClient, real sockets (socketpair), only `socket.create_connection` is replaced.
 
-  PYTHONPATH=/repo /venv/bin/python tools/c15_connect_race_demo.py      exit 1 = reply lost
+  PYTHONPATH=/repo /venv/bin/python tools/c15_connect_race_demo.py      exit 1 = reply lost (tree without the client lock), 0 = repaired
 """
 import socket
 import struct
